@@ -176,8 +176,12 @@ def mkbool(expr, rename=self_rename, env=None, bool_names=()):
 def guard_assignment(guards, rename=self_rename):
     """{atom: Term.const} for guards that are a bare boolean symbol or its negation"""
     out = {}
+    lits = []
     for g in guards:
-        test, pol = g[0], g[1]
+        _implied_literals(g[0], g[1], lits)
+    for test, pol in lits:
+        if isinstance(test, ast.BoolOp):
+            continue
         try:
             t = mkbool(test, rename)
         except NotATerm:
